@@ -54,7 +54,7 @@ manifest = {
         {"property_id": pid, "reason": propcfg.NOT_CLAIMED.get(pid, "check not built yet (work in progress; see DESIGN.md §9 order of work)")}
         for pid in ALL if pid not in propcfg.PROPS
     ],
-    "notes": "All checks: `./check Cxx --tier quick|thorough`; env VERIF_SEED / VERIF_TIER honoured. Known findings and repaired defects: /verif/KNOWN_FINDINGS.json. Seeded breakages used to test the checks: /verif/seeded/.",
+    "notes": "All checks: `./check Cxx --tier quick|thorough`; env VERIF_SEED / VERIF_TIER honoured. Known findings and repaired defects: /verif/KNOWN_FINDINGS.json. Seeded breakages used to test the checks: /verif/seeded/. The correspondence runs the DEBUG build of /repo (overflow checks and debug assertions on); the translator locks that debug assertions have no side effects and that cfg(debug_assertions) appears in no new place (build_profile_lock), which is a lock and not a proof that release builds behave alike; release-only behaviour is otherwise seen only through the C library (C17).",
 }
 json.dump(manifest, open(os.path.join(VERIF, "MANIFEST.json"), "w"), indent=1)
 print("MANIFEST.json: %d checks, %d not claimed" % (len(checks), len(manifest["not_applicable"])))
